@@ -291,6 +291,71 @@ def search_materialize(clause, budget, rng):
     return None
 
 
+def search_convert(fn, clause, budget, rng):
+    """iteration.Engine.convert_*: the returned callable against direct evaluation, on every row of a small domain."""
+    E = R.iteration.Engine(name="E")
+    cols = (D.A, D.Bt, D.Ct)
+    allrows = [dict(zip(cols, v)) for v in itertools.product((-2, -1, 0, 1, 2), repeat=3)]
+    lits = [lit(-2), lit(0), lit(2)]
+    if fn == "Engine.convert_column_expression":
+        for e in D.exprs(cols) + [ref(D.A).method("__neg__"), lit(2).method("__neg__")]:
+            f = E.convert_column_expression(e)
+            for r in allrows:
+                if f(r) != D.evx(e, r):
+                    return f"convert_column_expression({e})({r}) = {f(r)} but the expression evaluates to {D.evx(e, r)}"
+        return None
+    conts = [R.ColumnContainer.range_literal(range(a, b, s)) for a in (-2, 0, 1) for b in (-3, 0, 3) for s in (-2, -1, 1, 2)]
+    conts += [R.ColumnContainer.sequence(items) for items in ([], [lit(0)], [lit(0), ref(D.Bt)], [lit(2).method("__neg__"), ref(D.Bt)],
+                                                              [ref(D.Bt).method("__add__", lit(1)), lit(1).method("__add__", lit(1))], [ref(D.Ct), ref(D.Bt), lit(2)])]
+    if fn == "Engine.convert_column_container":
+        for cexp in conts:
+            f = E.convert_column_container(cexp)
+            for r in allrows:
+                for v in (-3, -2, -1, 0, 1, 2, 3):
+                    want = D.ev(cexp.contains(lit(v)), r)
+                    if (v in f(r)) != want:
+                        return f"{v} in convert_column_container({cexp})({r}) is {v in f(r)} but membership is {want}"
+        return None
+    ps = D.preds(cols)
+    ps += [ref(D.A).eq(lit(1)).logical_and(ref(D.Bt).gt(lit(0)), ref(D.Ct).lt(lit(2))), R.Predicate.logical_or(*[ref(t).eq(lit(2)) for t in cols]), R.LogicalAnd(()), R.LogicalOr(())]
+    ps += [c.contains(x) for c in conts for x in (ref(D.A), lit(-2))]
+    ps += [p.logical_not() for p in ps[-12:]]
+    for p in ps:
+        f = E.convert_predicate(p)
+        for r in allrows:
+            if bool(f(r)) != D.ev(p, r):
+                return f"convert_predicate({p})({r}) = {f(r)} but the predicate evaluates to {D.ev(p, r)}"
+    return None
+
+
+def search_columns_required(cls, clause, budget, rng):
+    """columns_required of an operation against the columns its parts mention (computed structurally)."""
+    E = R.iteration.Engine(name="E")
+    ls = D.leaves(E)
+    fixed = [l for l in ls if len(D.rows_of(l)) in (1, 2)][:6]
+    seen = 0
+    for leaf in ls[:12]:
+        for op in D.ops_of_class(cls, leaf.columns, fixed=fixed):
+            seen += 1
+            match op:
+                case Calculation(expression=e):
+                    want = D.fv(e)
+                case Selection(predicate=p):
+                    want = D.fv(p)
+                case Sort(terms=ts):
+                    want = set().union(*[D.fv(t.expression) for t in ts]) if ts else set()
+                case PartialJoin(binary=j, fixed=f):
+                    want = (D.fv(j.predicate) - set(f.columns)) | set(j.min_columns)
+                case Projection(columns=c):
+                    want = set(c)
+                case _:
+                    want = set()
+            got = set(op.columns_required)
+            if got != want:
+                return f"{op!r}.columns_required = {sorted(map(str, got))}, but it needs {sorted(map(str, want))}"
+    return None if seen else "no operation of this class could be built"
+
+
 def main():
     key, clause = sys.argv[1], sys.argv[2]
     budget = int(sys.argv[3]) if len(sys.argv) > 3 else 4000
@@ -302,6 +367,10 @@ def main():
         found = search_transfer_simplify(clause, budget, rng)
     elif fn in ("Engine.materialize", "Materialization.simplify"):
         found = search_materialize(clause, budget, rng)
+    elif key.startswith("iteration._engine:") and meth.startswith("convert_"):
+        found = search_convert(fn, clause, budget, rng)
+    elif meth == "columns_required" and key.startswith("_operations."):
+        found = search_columns_required(cls, clause, budget, rng)
     elif meth == "commute":
         found = search_commute(cls, clause, budget, rng)
     elif meth == "simplify":
